@@ -35,13 +35,13 @@ PosSample(i, n, p) ==
 
 MeanCase(fl, ty, style, ki, li, data, first) ==
     [op |-> "mean.ci", fl |-> fl, ty |-> ty, style |-> style, conf |-> Conf(ki, li), li |-> li,
-     data |-> data, first |-> first, grp |-> Part]
+     data |-> data, first |-> first, grp |-> (IF Part = "c10seq" THEN "c10" ELSE Part)]
 
 VARIABLE done
 Init == done = FALSE
 
 \* ---- C10 ----------------------------------------------------------------------------------------
-AllConfs(f(_, _, _)) == \A ki \in 1..3 : \A li \in 1..17 : f(ki, li, ki = 1 /\ li = 1)
+AllConfs(f(_, _, _)) == \A ki \in 1..3 : \A li \in 1..NLEV : f(ki, li, ki = 1 /\ li = 1)
 
 C10Part(d) ==
   /\ \A i \in 1..ND : \A ty \in {"f64", "f32"} :
@@ -81,11 +81,33 @@ C10Part(d) ==
        AllConfs(LAMBDA ki, li, f : Emit([op |-> "quant.ranks", n |-> n, q |-> [n |-> qa, p |-> -5], qa |-> qa,
                                          conf |-> Conf(ki, li), li |-> li, first |-> f, grp |-> Part]))
 
+\* The same groups with the LEVEL in the outer loop and the kind in the inner loop, to be executed on one
+\* thread: consecutive calls then share level and degrees of freedom and differ in the kind only.
+AllConfsByLevel(f(_, _, _)) == \A li \in 1..NLEV : \A ki \in 1..3 : f(ki, li, ki = 1 /\ li = 1)
+C10SeqPart(d) ==
+  /\ \A i \in 1..ND : \A ty \in {"f64", "f32"} :
+       LET n == Pick(50 + i, 11, 2, 120)
+           da == RandSample(50 + i, n, 0, 0)
+           dp == PosSample(50 + i, n, 0)
+           db == RandSample(950 + i, n, 30, 0) IN
+       /\ AllConfsByLevel(LAMBDA ki, li, f : Emit(MeanCase("arith", ty, "ci", ki, li, da, f)))
+       /\ AllConfsByLevel(LAMBDA ki, li, f : Emit(MeanCase("geo", ty, "extend", ki, li, dp, f)))
+       /\ AllConfsByLevel(LAMBDA ki, li, f : Emit(MeanCase("harm", ty, "append", ki, li, dp, f)))
+       /\ AllConfsByLevel(LAMBDA ki, li, f : Emit(MeanCase("unpaired", ty, "ci", ki, li, da, f) @@ [datab |-> db]))
+  /\ \A n \in {9, 30, 400} : \A k \in {2, n \div 3, n - 2} :
+       /\ AllConfsByLevel(LAMBDA ki, li, f : Emit([op |-> "prop.ci", fe |-> "ci", n |-> n, k |-> k, conf |-> Conf(ki, li), li |-> li,
+                                                  first |-> f, grp |-> "c10"]))
+       /\ (n = 400) => AllConfsByLevel(LAMBDA ki, li, f : Emit([op |-> "prop.ci", fe |-> "ci_z_normal", n |-> n, k |-> n \div 3, conf |-> Conf(ki, li), li |-> li,
+                                                  first |-> f, grp |-> "c10"]))
+  /\ \A n \in {9, 16, 40} :
+       AllConfsByLevel(LAMBDA ki, li, f : Emit([op |-> "quant.ranks", n |-> n, q |-> [n |-> 11, p |-> -5], qa |-> 11,
+                                               conf |-> Conf(ki, li), li |-> li, first |-> f, grp |-> "c10"]))
+
 \* ---- C16 ----------------------------------------------------------------------------------------
 ScaleExps == <<-40, -7, -1, 1, 10, 60>>
 FlipK == <<1, 3, 2>>
 Orders == <<"desc", "interleave", <<"shuffle", 7>>, <<"shuffle", 99>> >>
-LevSel == {4, 8, 12, 17}
+LevSel == {4, 8, 12, 19}
 Tf(c, role, extra) == c @@ [role |-> role] @@ extra
 
 C16Mean(fl, ty, ki, li, data, datab, two) ==
@@ -141,6 +163,6 @@ C16Part(d) ==
 
 Next == /\ ~done
         /\ done' = TRUE
-        /\ CASE Part = "c10" -> C10Part(done) [] Part = "c16" -> C16Part(done)
+        /\ CASE Part = "c10" -> C10Part(done) [] Part = "c16" -> C16Part(done) [] Part = "c10seq" -> C10SeqPart(done)
 Spec == Init /\ [][Next]_done
 =============================================================================
